@@ -1105,6 +1105,72 @@ def oracle(ctx, deep):
                              'transport': transport, 'busy': busy}))
     for _ in range(3000 if deep else 300):
         add(check_initiator(*gen_initiator(ctx, rel)))
+    return fails + deviant_e2e(ctx, deep)
+
+
+def _sel_within(sa_sel, pol_sel):
+    """kernel selector inclusion: (family, saddr, prefix_s, daddr, prefix_d, sport, sport_mask, dport, dport_mask, proto)"""
+    from ipaddress import ip_network
+    if sa_sel[0] != pol_sel[0]:
+        return False
+    for a, pa, b, pb in ((sa_sel[1], sa_sel[2], pol_sel[1], pol_sel[2]), (sa_sel[3], sa_sel[4], pol_sel[3], pol_sel[4])):
+        if not ip_network(f'{a}/{pa}', strict=False).subnet_of(ip_network(f'{b}/{pb}', strict=False)):
+            return False
+    for port, mask, pport, pmask in ((sa_sel[5], sa_sel[6], pol_sel[5], pol_sel[6]), (sa_sel[7], sa_sel[8], pol_sel[7], pol_sel[8])):
+        if pmask and not (mask and port == pport):
+            return False
+    return pol_sel[9] in (0, sa_sel[9])
+
+
+def installed_within_policies(ctx, label, actions, conf, seed):
+    """End to end, through main_loop: whatever the peer answers (an authenticated peer that rewrites its payloads, a
+    peer with another configuration), every IPsec SA an endpoint has in its kernel carries selectors that lie within the
+    selectors of one of ITS OWN installed policies of that direction, with that policy's mode and IPsec protocol
+    (narrowing only; a mode the local policy does not have is never installed)."""
+    from sim.scenarios import Pair
+    from sim.world import LoopEscape
+    import xfrm
+    rep = {'kind': 'e2e', 'label': label, 'actions': actions, 'conf': conf, 'seed': seed}
+    with Pair(seed=seed, **conf) as p:
+        def look(step):
+            for n in 'AB':
+                ep = p.ep(n)
+                for key, sa in ep.kernel.sad.items():
+                    outbound = sa['saddr'] == str(ep.addrs[0])
+                    want = xfrm.XFRM_POLICY_OUT if outbound else xfrm.XFRM_POLICY_IN
+                    ok = False
+                    for (psel, pdir), pol in ep.kernel.spd.items():
+                        if pdir != want or pol['tmpl'] is None:
+                            continue
+                        if _sel_within(sa['sel'], psel) and pol['tmpl'][4] == sa['mode'] and pol['tmpl'][3] == key[1]:
+                            ok = True
+                    ctx.count('e2e-installed-sa')
+                    if not ok:
+                        return Failure('property', 'ts:installed-outside-own-policy',
+                                       f'{label}: after step {step} endpoint {n} holds the IPsec SA {key[2].hex()} '
+                                       f'({"out" if outbound else "in"}bound) with selector {sa["sel"]}, mode {sa["mode"]}: '
+                                       f'no installed policy of that direction covers it with that mode '
+                                       f'({[(k[0], v["tmpl"][4]) for k, v in ep.kernel.spd.items() if k[1] == want]})', rep)
+            return None
+        try:
+            for i, a in enumerate(list(actions) + [['deliver', 0]] * 6):
+                p.do(a)
+                f = look(i)
+                if f is not None:
+                    return [f]
+        except LoopEscape as ex:
+            return [Failure('property', 'loop:escaped-exception', f'{label}: {ex.exc!r}', rep)]
+    ctx.case(['e2e', label], nontrivial=True)
+    return []
+
+
+def deviant_e2e(ctx, deep):
+    from props import hdl
+    fails = []
+    for label, acts, conf, seed, skip in hdl.deviant_set(deep, ctx.seed):
+        fails += installed_within_policies(ctx, label, acts, conf, seed)
+        if len(fails) > 2:
+            break
     return fails
 
 
@@ -1126,6 +1192,8 @@ def _tup(x):
 def replay(ctx, obj):
     kind = obj.get('kind')
     f = None
+    if kind == 'e2e':
+        return installed_within_policies(ctx, obj['label'], obj['actions'], obj['conf'], obj['seed'])
     if kind == 'is_subset':
         f = check_is_subset(_tup(obj['a']), _tup(obj['b']))
     elif kind == 'net':
